@@ -1012,7 +1012,7 @@ class ObjTranslator:
                     self.translate(n)
                 except Untranslatable:
                     pass
-                except (KeyError, IndexError, TypeError, AttributeError) as e:
+                except (KeyError, IndexError, TypeError, AttributeError, ValueError, AssertionError) as e:
                     self.failed[self.T.tu.qualname(n)] = "unexpected AST shape %r" % (e,)
 
     def run_ctors(self):
@@ -1025,7 +1025,7 @@ class ObjTranslator:
                             self.translate(n)
                         except Untranslatable:
                             pass
-                        except (KeyError, IndexError, TypeError, AttributeError) as e:
+                        except (KeyError, IndexError, TypeError, AttributeError, ValueError, AssertionError) as e:
                             self.failed[self.T.tu.qualname(n) + " (constructor)"] = "unexpected AST shape %r" % (e,)
 
     def default_state(self):
